@@ -50,7 +50,8 @@ WS_CHARS = K.WS
 EXTRAS = ["alphabet.type", "alphabet.size", "alphabet.format", "states", "flags", "accepting",
           "ratio", "word", "table.format", "table.numTransitions"]
 STRINGS = ["DFA", "minimized", "BFS", "accessible", "trim", "", "a,b", "rec(", ")", "]",
-           "[1..3]", "x := y", "dense deterministic", "two words", ";"]
+           "[1..3]", "x := y", "dense deterministic", "two words", ";", " lead", "trail ", " ",
+     "tab\tinside"]
 NAME_HEAD = "abcdxyzABXYrst_"
 NAME_TAIL = "abAB019_rxe"
 REC_NAMES = ["_RWS.wa", "_RWS.geowa", "_RWS.diff2", "_RWS_Sub1.wa", "G.gm", "x", "rws"]
